@@ -27,7 +27,10 @@ CFG = {
             "own method/URI/marker header/peer port, and the server still answers; model = Extract.v evaluated on the "
             "wire strings gives the same values (serde_json: oracle called directly - the whole buffer as one JSON document, as body.rs requires). "
             "Concurrency slice: K in {2,8,32} connections x pipelining depth {1,4} released together through a "
-            "barrier, every request carrying unique markers in path, query, body and a header. Non-trivial: every "
+            "barrier, every request carrying unique markers in path, query, body and a header. The request-context slice "
+            "also runs over HTTP/1.1-over-TLS (tag transport:tls): a second server with the same endpoints started with "
+            "ConfigTls::AsBytes, a tokio-rustls client; sequential requests on one TLS connection and 2 / 6 concurrent "
+            "TLS connections; the peer port the handler sees must be the client socket's local port. Non-trivial: every "
             "case except an empty raw body; distinct by case content.",
     "trusted_base": COMMON_TB + [
         "serde_json (library): Section variables json_de/json_ser with the contract json_de (json_ser v) = Some v; "
@@ -40,6 +43,7 @@ CFG = {
         "missing-field rule) and serde_urlencoded 0.7.1 Part / form_urlencoded 1.2.1 parse / percent-encoding 2.3.1 / "
         "String::from_utf8_lossy / core::num FromStr / char::from_str: transcribed in Scalars.v, Query.v, Extract.v, "
         "Pct.v and compared on every run",
+        "rustls / tokio-rustls (TLS transport of the transport:tls cases; the throw-away certificate is not verified)",
         "hyper 1.6 HTTP/1 parser and chunked decoding: the data frames' concatenation is the body; request targets "
         "reach dropshot unchanged (the harness percent-encodes everything outside a conservative literal set)",
         "routing of the request to the endpoint and the binding of template variables to raw segments (C01/C03's "
